@@ -1378,6 +1378,22 @@ class Engine:
         dv = self.eval(d, env)
         if isinstance(dv, (PyFunc, BoundMethod)):
             return self.call(dv, [f], {})
+        if isinstance(dv, self.models.CtxManagerFromGen) and isinstance(f, PyFunc):
+            # contextlib.ContextDecorator: `@cm()` on a function = a fresh context manager around every *call* of it.
+            # (Around the call only: for an `async def` the call merely creates the coroutine - awaiting it happens outside.)
+            def wrapped(*a, **k):
+                cm = self.eval(d, env)
+                box = []
+
+                def on_yield(v):
+                    box.append(self.call(f, list(a), k))
+                    return None
+                self.run_generator(cm.gen, on_yield)
+                return box[0] if box else None
+            w = Builtin('contextdecorated:' + f.qualname, wrapped)
+            w.is_method = f.cls is not None or True
+            w.qualname = f.qualname
+            return w
         if isinstance(f, PyFunc):
             f.unknown_decorator = name
         return f
